@@ -22,10 +22,12 @@ cp $SRC/demo_test.go $WT/$PKG/zz_demo_test.go
 ( cd $WT && timeout 300 go test -mod=mod -vet=off -count=1 -run "^($DEMO_RUN)\$" ./$PKG/ > $OUT/demo_mut.log 2>&1 ); DM=$?
 git -C /repo worktree remove --force $WT >/dev/null 2>&1
 # now the check
+cp /verif/evidence/$PROP.json /tmp/seed-evidence-$ID.json 2>/dev/null
 git -C /repo apply $OUT/patch.diff; AP2=$?
 ( cd /verif && timeout 3000 ./check $PROP $TIER > $OUT/check_$TIER.log 2>&1 ); CK=$?
 git -C /repo checkout -- . ; git -C /repo status --short | grep -v '^??' 
 cp /verif/evidence/$PROP.json $OUT/evidence_mut.json 2>/dev/null
+[ -f /tmp/seed-evidence-$ID.json ] && mv /tmp/seed-evidence-$ID.json /verif/evidence/$PROP.json
 echo "seed=$ID prop=$PROP apply=$AP demo_clean_exit=$DC suite_mut_exit=$SU demo_mut_exit=$DM check_${TIER}_exit=$CK"
 python3 - <<PY
 import json,os
